@@ -98,15 +98,22 @@ func runC20(c *an.Ctx) {
 	}
 	var convTerm, backTerm *an.Term
 	var refuse an.FactSet
-	for _, b := range conv.Blocks {
-		if len(b.Instrs) == 0 {
-			continue
-		}
-		if ret, ok := b.Instrs[len(b.Instrs)-1].(*ssa.Return); ok {
-			if k, isC := cfi.Term(ret.Results[1]).IsConst(); isC && k == "nil" {
-				convTerm = cfi.Term(ret.Results[0])
-				refuse = cfi.FactsAt(ret)
-			}
+	// every way of returning a nil error: the value returned and the facts under which that happens
+	type accept struct {
+		term  *an.Term
+		facts an.FactSet
+	}
+	var accepts []accept
+	for _, o := range cfi.Outcomes() {
+		if len(o.Results) == 2 && isConstTerm(o.Results[1], "nil") {
+			convTerm = o.Results[0]
+			refuse = o.Facts
+			accepts = append(accepts, accept{o.Results[0], o.Facts})
+		} else if len(o.Results) == 2 && !isDefinitelyError(o.Results[1]) {
+			// an error result that is neither nil nor constructed on the spot: not the shape this rule evaluates
+			convTerm = nil
+			accepts = nil
+			break
 		}
 	}
 	for _, b := range back.Blocks {
@@ -150,23 +157,39 @@ func runC20(c *an.Ctx) {
 			return e
 		}
 		// (a) refusal below genesis, acceptance from genesis on
-		rel := an.RelevantFacts(refuse, func() map[string]bool {
-			m := map[string]bool{tParam.Key(): true}
-			if gTerm != nil {
-				m[gTerm.Key()] = true
+		relOf := func(fs an.FactSet) []an.Fact {
+			return an.RelevantFacts(fs, func() map[string]bool {
+				m := map[string]bool{tParam.Key(): true}
+				if gTerm != nil {
+					m[gTerm.Key()] = true
+				}
+				return m
+			}())
+		}
+		// the accepting outcome that applies at t (nil if t is refused)
+		which := func(t *big.Int) (*accept, error) {
+			var hit *accept
+			for i := range accepts {
+				got, err := an.EvalFacts(relOf(accepts[i].facts), env(map[string]*big.Int{tParam.Key(): t}), p.IntBits)
+				if err != nil {
+					return nil, err
+				}
+				if got {
+					hit = &accepts[i]
+				}
 			}
-			return m
-		}())
+			return hit, nil
+		}
 		for _, d := range []int64{-1000000, -301, -300, -1, 0, 1, 299, 300, 1<<31 - 1, 1 << 31, 1<<31 + 300, 1<<32 - 301, 1<<32 - 1} {
 			t := new(big.Int).Add(G, big.NewInt(d))
-			got, err := an.EvalFacts(rel, env(map[string]*big.Int{tParam.Key(): t}), p.IntBits)
+			hit, err := which(t)
 			nPts++
 			if err != nil {
 				bad = "refusal guard not evaluable: " + err.Error()
 				break
 			}
-			if got != (d >= 0) {
-				bad = fmt.Sprintf("t=G%+d: accepted=%v", d, got)
+			if (hit != nil) != (d >= 0) {
+				bad = fmt.Sprintf("t=G%+d: accepted=%v", d, hit != nil)
 			}
 		}
 		// (b) exact quotient on the domain
@@ -183,7 +206,12 @@ func runC20(c *an.Ctx) {
 		ds = append(ds, max32)
 		for _, d := range ds {
 			t := new(big.Int).Add(G, d)
-			got, err := an.EvalInt(convTerm, env(map[string]*big.Int{tParam.Key(): t}), p.IntBits)
+			hit, herr := which(t)
+			if herr != nil || hit == nil {
+				bad = fmt.Sprintf("UnixToTimeslot(G+%s) is refused or its guard is not evaluable", d)
+				break
+			}
+			got, err := an.EvalInt(hit.term, env(map[string]*big.Int{tParam.Key(): t}), p.IntBits)
 			nPts++
 			if err != nil {
 				bad = "conversion term not evaluable: " + err.Error()
@@ -224,6 +252,14 @@ func runC20(c *an.Ctx) {
 	}
 	c.Count("PRED", nPts)
 	cadence(c)
+}
+
+// isDefinitelyError: an error value constructed on the spot.
+func isDefinitelyError(t *an.Term) bool {
+	if t.K == an.KPure || t.K == an.KCall {
+		return strings.HasPrefix(t.Callee(), "fmt.Errorf") || strings.HasPrefix(t.Callee(), "errors.New")
+	}
+	return false
 }
 
 // cadence: trigger + period + half-width < window.
